@@ -240,6 +240,17 @@ def route_cases(g, cid, obj, meta, rng, routes=("parse", "construct")):
     return out
 
 
+def gen_py_cases(g, base, rng, per_obj=2):
+    """Python-only argument values (lazy iterables, tuples, sets, datetimes) through the constructors:
+    cases flagged "py" are run on the implementation and judged by the oracle only."""
+    cases = []
+    for cid, o in base:
+        for label, slot, x in stixgen.py_value_cases(g, cid, o)[:per_obj]:
+            cases.append({"op": "construct", "cid": cid, "data": x, "allow": False, "interop": False, "py": True,
+                          "meta": {"origin": "python-value", "ckind": label, "slot": slot, "cid": cid}})
+    return cases
+
+
 def gen_cases(rng, per_class=3, corrupt_per_obj=3, allow_share=0.25, spec=None):
     """Valid objects + single-point corruptions, parse and construct routes, strict and allow_custom."""
     g, base = gen_base(rng, per_class, spec)
@@ -264,6 +275,7 @@ def gen_cases(rng, per_class=3, corrupt_per_obj=3, allow_share=0.25, spec=None):
             n += 1
             if n >= corrupt_per_obj:
                 break
+    cases += gen_py_cases(g, base, rng, per_obj=1)
     return g, cases
 
 
@@ -325,8 +337,14 @@ def sharded_eval(tag, hdr, terms, timeout=900):
 
 
 def run_model_cases(cases, variants, pats=None, tag="sch"):
+    """One line per case; cases flagged "py" (not JSON-like) are not evaluated: UNMODELLED."""
     pats = pats if pats is not None else pattern_lists(cases)
-    return sharded_eval(tag, header(variants, pats), [model_term(c) for c in cases])
+    idx = [i for i, c in enumerate(cases) if not c.get("py")]
+    lines = sharded_eval(tag, header(variants, pats), [model_term(cases[i]) for i in idx])
+    out = ["UNMODELLED"] * len(cases)
+    for i, l in zip(idx, lines):
+        out[i] = l
+    return out
 
 
 def run_impl_cases(cases, want_json=True):
